@@ -21,6 +21,7 @@ from fractions import Fraction
 from .. import common
 from ..common import rat, unrat
 from . import c20_containers
+from . import c20_symbolic
 
 PROP = "C20"
 RULE = ("random call histories (8-22 calls) on a shared pool of circuits / Pauli terms and sums / measurement sets / "
@@ -39,6 +40,12 @@ RULE = ("random call histories (8-22 calls) on a shared pool of circuits / Pauli
         "container type the unchanged library accepts for it (one case per family x slot x type on every run, plus random "
         "combinations), the family's calls made on the same argument objects, each twice, deep snapshots (value bits, dtype, strides, "
         "flags, container type, order, identity, the buffer behind a view, the dict behind a proxy) around every call; "
+        "kind `symbolic` (harness/props/c20_symbolic.py): readers of objects holding sympy expressions that are NOT in simplified / "
+        "expanded / evaluated form (hand-built symbolic wavefunctions over every constructor route, wavefunctions returned by the symbolic "
+        "simulator, circuits / operations / plain, controlled and daggered gates with unsimplified parameters, custom gate definitions with "
+        "unsimplified matrices): every reading / value-returning operation twice on the same objects, STRUCTURAL snapshots (srepr of every "
+        "entry / parameter, free_symbols, container type and shape, read from the fields without running library code) of receiver and "
+        "arguments around every call, equal answers required; "
         "non-trivial: a history with >= 2 listed calls that share at least one pool object, a containers case with at least one "
         "argument not in its default type; distinct = distinct canonical JSON of the history")
 TRUSTED = [
@@ -68,6 +75,10 @@ TRUSTED = [
     "to an array whose WRITEABLE flag is off with a ValueError naming 'read-only', Python refuses item assignment / deletion and "
     "the mutating methods on tuple / MappingProxyType / frozenset / range with a TypeError / AttributeError naming them - such an "
     "error text is taken as proof that the operation tried to write to its argument",
+    "symbolic: sympy.srepr is injective on expression structure, sympy expressions are immutable (the srepr of a stored expression is "
+    "cached by object identity within one case), vars() / dataclasses.fields / Matrix.flat() / iteration over an object array read an "
+    "object's fields without running library code, so taking a snapshot cannot trigger the rewrite it looks for; two ANSWERS are compared "
+    "by sympy's structural hash (srepr only to print a difference)",
 ]
 ASSUMPTIONS = [
     "np.isclose(c, 0) in PauliSum.simplify coincides with the exact test on the dyadic coefficients generated here; "
@@ -81,6 +92,15 @@ ASSUMPTIONS = [
     "are not among the listed operations: their result may alias the argument exactly as the model says; the results of "
     "the listed operations are edited through public attributes only at their top-level container",
     "histories with a symbolic wavefunction are outside the model (oracle only)",
+    "symbolic (oracle only, outside the model): the structural snapshot reads private fields (_amplitude_vector, _operations, the "
+    "dataclass fields of gates / operations / custom gate definitions); what it demands is only what the public API shows: wf[i], "
+    "list(wf), wf.free_symbols, circuit.operations[i].params, definition.matrix are those very objects, and srepr / free_symbols of "
+    "them are observable (a second identical call returns a structurally different or differently typed answer once free symbols "
+    "cancel).  The identity of a private container is NOT demanded.  Any exception of a symbolic object's operation "
+    "(save_wavefunction, sample_from_wavefunction, bind to values that break normalisation, power / exp of a parametric gate, hash of a gate "
+    "with an unhashable factory) counts as an answer - the same one both times - and the frame condition is checked on that path too; "
+    "the simulator object (its job counters are documented state) is not snapshotted; numeric entries of a generated symbolic "
+    "wavefunction keep total probability <= 1 (the constructor rejects more)",
     "containers (oracle only, outside the model): the container types per argument are those the UNCHANGED library accepts "
     "(surveyed with `python -m harness.props.c20_containers survey`: every listed type answers every call of its family without a "
     "rejection).  Not accepted by the unchanged library and therefore not generated: marked qubits as numpy arrays "
@@ -1286,6 +1306,8 @@ def _run_impl(case):
         return _run_evalframe(case)
     if case.get("kind") == "containers":
         return c20_containers.run_case(_lib(), case)
+    if case.get("kind") == "symbolic":
+        return c20_symbolic.run_case(_lib(), case)
     L = _lib()
     calls = case["calls"]
     pool, steps = [], []
@@ -1483,6 +1505,8 @@ def compare(case, out, resp):
 def oracle(case, out):
     if isinstance(out, dict) and out.get("containers"):
         return c20_containers.oracle(case, out)
+    if isinstance(out, dict) and out.get("symbolic"):
+        return c20_symbolic.oracle(case, out)
     if isinstance(out, dict) and out.get("evalframe"):
         if not out["sim_arg_intact"]:
             return ("mutates:evaluate_circuit", "SymbolicSimulator.get_wavefunction(circuit, initial_state=v) modified v")
@@ -1556,6 +1580,8 @@ def nontrivial(case):
         return len(case["ops"]) >= 2
     if case.get("kind") == "containers":
         return c20_containers.nontrivial(case)
+    if case.get("kind") == "symbolic":
+        return c20_symbolic.nontrivial(case)
     uses = {}
     n = 0
     for c in case["calls"]:
@@ -1630,7 +1656,7 @@ def distribution(cases, outs):
                 errs[st["res"][:11]] = errs.get(st["res"][:11], 0) + 1
     return {"calls_by_op": dict(sorted(ops.items())), "rejections": errs, "input_features": feat,
             "history_lengths": dict(sorted(lens.items())),
-            "total_calls": sum(ops.values()), **c20_containers.distribution(cases, outs)}
+            "total_calls": sum(ops.values()), **c20_containers.distribution(cases, outs), **c20_symbolic.distribution(cases, outs)}
 
 
 # ------------------------------------------------------------------ corpus and generators
@@ -1787,7 +1813,7 @@ def corpus():
             {"op": "dist_sub", "args": [1], "qubits": [2, 0], "qt": "i64"}, {"op": "dist_sub", "args": [1], "qubits": [0, 1], "qt": "range"},
             {"op": "dist_sub", "args": [3], "qubits": [2, 0], "qt": "ro:i64"},
             {"op": "report", "kind": "distance", "measure": "mmd", "args": [1, 3], "sigma": ["1/4", 1, 4], "st": "f64", "via": "direct"}]},
-    ] + c20_containers.corpus()
+    ] + c20_containers.corpus() + c20_symbolic.corpus()
 
 
 def _dy(rng, den=4, lo=-8, hi=8, nonzero=True):
@@ -2597,4 +2623,6 @@ def generate(rng, tier):
         cases.append(_history(rng, big, "wfsym"))
     # every argument of every family of operations in every container type the library accepts (oracle only)
     cases.extend(c20_containers.generate(rng, big))
+    # readers of objects holding UNSIMPLIFIED sympy expressions, structural snapshots (oracle only)
+    cases.extend(c20_symbolic.generate(rng, big))
     return cases
